@@ -280,7 +280,17 @@ def check_grouped_site(prog, rep):
                               for n, _ in rest_i + rest_j):
                 why = 'both lists must be restored right after the product with the operator ' \
                     'in slot i was taken'
-    if 'self.kroneckerproduct([s.JW for s in sites])' not in unparse(f) and why is None:
+    jwall = [c for c in body_nodes(f) if isinstance(c, ast.Call) and
+             dotted(c.func) == 'self.kroneckerproduct' and c.args and (
+                 pmatch('[$s.JW for $s in sites]', c.args[0]) or
+                 pmatch('[sites[$i].JW for $i in range($$n)]', c.args[0]))]
+    if not jwall:
+        d_ = local_defs(f)
+        jwall = [c for c in body_nodes(f) if isinstance(c, ast.Call) and
+                 dotted(c.func) == 'self.kroneckerproduct' and c.args and
+                 isinstance(c.args[0], ast.Name) and any(
+                     pmatch('[$s.JW for $s in sites]', v) for v in d_.get(c.args[0].id, []))]
+    if not jwall and why is None:
         why = 'the JW string of the grouped site is the product of the JW strings of all sub-sites'
     if why:
         rep.violation('GROUPED-jw', m, 'GroupedSite.__init__', 'jw-lists',
